@@ -36,16 +36,17 @@ TRUE = z3.BoolVal(True)
 FALSE = z3.BoolVal(False)
 
 
-def simplest_fraction(v: float) -> Fraction:
-    """the simplest rational that rounds to the float v (DESIGN 3.3.2)"""
+def simplest_fraction(v: float, single=False) -> Fraction:
+    """the simplest rational that rounds to the float v (float32 rounding when single) (DESIGN 3.3.2)"""
     if v != v or v in (float("inf"), float("-inf")):
         raise Unsupported("nan/inf constant")
     if v == int(v) and abs(v) < 2 ** 53:
         return Fraction(int(v))
-    fr = Fraction(repr(v))
+    rnd = (lambda c: float(np.float32(float(c)))) if single else float
+    fr = Fraction(repr(v)) if not single else Fraction(repr(float(np.float32(v)))) if False else Fraction(str(np.float32(v))) if single else Fraction(repr(v))
     for lim in (10, 100, 1000, 10 ** 4, 10 ** 6, 10 ** 9):
         c = Fraction(v).limit_denominator(lim)
-        if float(c) == v:
+        if rnd(c) == v:
             return c if c.denominator <= fr.denominator else fr
     return fr
 
@@ -545,7 +546,10 @@ def P(x):
         a = np.empty(tuple(x.shape), dtype=object)
         if x.numel():
             flat = x.detach().reshape(-1).tolist()
-            a.reshape(-1)[:] = [lift(v) for v in flat]
+            if x.dtype in (torch.float32, torch.float16, torch.bfloat16):
+                a.reshape(-1)[:] = [rv(simplest_fraction(v, single=True)) for v in flat]
+            else:
+                a.reshape(-1)[:] = [lift(v) for v in flat]
         return a
     if isinstance(x, np.ndarray):
         return obj_array(x.tolist())
